@@ -181,6 +181,110 @@ func wrapSites() ([]wsite, error) {
 	return out, nil
 }
 
+// ---- the four repairs of stream.go as syntactic facts (order of checks) ----
+
+func findFunc(f *ast.File, name string) *ast.FuncDecl {
+	for _, d := range f.Decls {
+		if fd, ok := d.(*ast.FuncDecl); ok && fd.Body != nil && recvName(fd) == name {
+			return fd
+		}
+	}
+	return nil
+}
+
+func mentions(n ast.Node, what string) bool {
+	found := false
+	ast.Inspect(n, func(m ast.Node) bool {
+		if e, ok := m.(ast.Expr); ok && strings.Contains(exprString(e), what) {
+			found = true
+		}
+		return !found
+	})
+	return found
+}
+
+// position (statement index in the function body, top level) of the first statement satisfying p, or -1
+func firstStmt(fd *ast.FuncDecl, p func(ast.Stmt) bool) int {
+	for i, st := range fd.Body.List {
+		if p(st) {
+			return i
+		}
+	}
+	return -1
+}
+
+func hasReturn(n ast.Node) bool {
+	found := false
+	ast.Inspect(n, func(m ast.Node) bool {
+		if _, ok := m.(*ast.ReturnStmt); ok {
+			found = true
+		}
+		return !found
+	})
+	return found
+}
+
+type orderFacts struct {
+	hdrOnClose, lateSetH, ctxErr, sendDone, closeErrFirst bool
+	problems                                                 []string
+}
+
+func wrapOrderFacts() (orderFacts, error) {
+	var of orderFacts
+	fset := token.NewFileSet()
+	f, err := parser.ParseFile(fset, filepath.Join(repoDir(), "pkg/wrap/stream.go"), nil, 0)
+	if err != nil {
+		return of, err
+	}
+	need := func(name string) *ast.FuncDecl {
+		fd := findFunc(f, name)
+		if fd == nil {
+			of.problems = append(of.problems, "function not found: "+name)
+		}
+		return fd
+	}
+	if fd := need("ClientServerStream.Close"); fd != nil {
+		// fx_hdr_on_close: an if on the context's error whose body latches the headers
+		of.hdrOnClose = firstStmt(fd, func(st ast.Stmt) bool {
+			is, ok := st.(*ast.IfStmt)
+			return ok && mentions(is.Cond, "ctx.Err()") && mentions(is.Body, "sendHeaderIfNeeded")
+		}) >= 0
+		// closeErr is assigned before anything is closed
+		iErr := firstStmt(fd, func(st ast.Stmt) bool {
+			as, ok := st.(*ast.AssignStmt)
+			return ok && len(as.Lhs) == 1 && selName(as.Lhs[0]) == "closeErr"
+		})
+		iClose := firstStmt(fd, func(st ast.Stmt) bool {
+			es, ok := st.(*ast.ExprStmt)
+			return ok && (callTo(es.X) == "close" || strings.HasSuffix(callTo(es.X), ".closed"))
+		})
+		of.closeErrFirst = iErr >= 0 && iClose > iErr
+	}
+	if fd := need("serverStream.SetHeader"); fd != nil {
+		// fx_late_seth: a select on headerC returning an error comes before the Join
+		iSel := firstStmt(fd, func(st ast.Stmt) bool {
+			ss, ok := st.(*ast.SelectStmt)
+			return ok && mentions(ss, "headerC") && mentions(ss, "errors.New")
+		})
+		iJoin := firstStmt(fd, func(st ast.Stmt) bool { return mentions(st, "metadata.Join") })
+		of.lateSetH = iSel >= 0 && iJoin > iSel
+	}
+	if fd := need("ClientServerStream.doneErr"); fd != nil {
+		// fx_ctx_err: doneErr can return the context's error
+		of.ctxErr = mentions(fd.Body, "ctx.Err()")
+	}
+	if fd := need("serverStream.SendMsg"); fd != nil {
+		// fx_send_done: the context is looked at (and the call left) before the headers are latched
+		iChk := firstStmt(fd, func(st ast.Stmt) bool {
+			is, ok := st.(*ast.IfStmt)
+			return ok && mentions(is.Cond, "ctx.Err()") && hasReturn(is.Body)
+		})
+		iLatch := firstStmt(fd, func(st ast.Stmt) bool { return mentions(st, "sendHeaderIfNeeded") })
+		of.sendDone = iChk >= 0 && iLatch > iChk
+	}
+	return of, nil
+}
+
 func coqStr(s string) string { return `"` + strings.ReplaceAll(s, `"`, `""`) + `"` }
 
 func translateWrapSites(outDir string) error {
@@ -234,5 +338,21 @@ func translateWrapSites(outDir string) error {
 		fmt.Fprintf(&b, "(%d, %s)", r.i, r.k)
 	}
 	b.WriteString("].\n")
+	of, err := wrapOrderFacts()
+	if err != nil {
+		return err
+	}
+	b.WriteString("\n(* the repairs of stream.go as facts read off the source: Close latches pending headers under a test of\n")
+	b.WriteString("   the context; SetHeader tests the latch before it joins; doneErr can return ctx.Err(); server SendMsg\n")
+	b.WriteString("   leaves on a finished context before it latches the headers *)\n")
+	fmt.Fprintf(&b, "Definition wrap_fixes : fixes := mkFx %v %v %v %v.\n", of.hdrOnClose, of.lateSetH, of.ctxErr, of.sendDone)
+	fmt.Fprintf(&b, "(* Close assigns closeErr before it closes closedC / serverSend / the context *)\nDefinition wrap_close_err_first : bool := %v.\n", of.closeErrFirst)
+	fmt.Fprintf(&b, "Definition wrap_order_problems : list string := [%s]%%string.\n", func() string {
+		q := make([]string, len(of.problems))
+		for i, p := range of.problems {
+			q[i] = coqStr(p)
+		}
+		return strings.Join(q, "; ")
+	}())
 	return os.WriteFile(filepath.Join(outDir, "WrapSites.v"), []byte(b.String()), 0o644)
 }
